@@ -12,7 +12,6 @@ import sys
 
 from pvf.bounded import common
 
-sys.setrecursionlimit(20000)
 
 _BOUND = {}
 
@@ -252,7 +251,7 @@ def replay(r, budget_s=10):
     def on_alarm(signum, frame):
         raise _Timeout()
     old = signal.signal(signal.SIGALRM, on_alarm)
-    signal.alarm(budget_s)
+    signal.setitimer(signal.ITIMER_REAL, budget_s, 0.05)
     try:
         return _replay(r)
     except _Timeout:
@@ -260,7 +259,7 @@ def replay(r, budget_s=10):
     except RecursionError:
         return dict(confirmed=False, detail='replay hit the recursion limit')
     finally:
-        signal.alarm(0)
+        signal.setitimer(signal.ITIMER_REAL, 0)
         signal.signal(signal.SIGALRM, old)
 
 
